@@ -225,6 +225,19 @@ func (r *Request) problem(format string, args ...any) {
 
 // DecodeRequest checks a recorded request against the protocol documents.
 func DecodeRequest(p Protocol, unary bool, method string, header http.Header, body []byte, sawEOF bool, dec Decompressor) *Request {
+	return decodeRequest(p, unary, method, header, body, sawEOF, dec, false)
+}
+
+// DecodeRequestAsReceiver is DecodeRequest with the one leniency a receiver may
+// show (and this library's handlers, like later upstream releases, do show): an
+// EMPTY unary Connect body is the empty message whatever Content-Encoding says.
+// What a client WRITES is judged by DecodeRequest: zero bytes are not a
+// compressed stream of any algorithm.
+func DecodeRequestAsReceiver(p Protocol, unary bool, method string, header http.Header, body []byte, sawEOF bool, dec Decompressor) *Request {
+	return decodeRequest(p, unary, method, header, body, sawEOF, dec, true)
+}
+
+func decodeRequest(p Protocol, unary bool, method string, header http.Header, body []byte, sawEOF bool, dec Decompressor, lenientEmpty bool) *Request {
 	if dec == nil {
 		dec = DefaultDecompress
 	}
@@ -279,7 +292,7 @@ func DecodeRequest(p Protocol, unary bool, method string, header http.Header, bo
 	if p == Connect && unary {
 		payload := body
 		compressed := alg != "" && alg != "identity"
-		if compressed && len(body) > 0 { // an empty body is the empty message whatever the encoding
+		if compressed && !(lenientEmpty && len(body) == 0) {
 			var err error
 			payload, err = dec(alg, body)
 			if err != nil {
